@@ -271,6 +271,8 @@ class Engine:
         decs = extract.decorators(self.fn)
         if ("staticmethod" in decs) != bool(self.c.static):
             raise StaleContract(f"{qualname}: @staticmethod status differs from the contract")
+        if ("classmethod" in decs) != bool(getattr(self.c, "is_classmethod", False)):
+            raise StaleContract(f"{qualname}: @classmethod status differs from the contract")
         if ("property" in decs) != bool(self.c.is_property):
             raise StaleContract(f"{qualname}: @property status differs from the contract")
         self.obls = []
